@@ -201,7 +201,7 @@ func (m *LifeMon) OnEvent(c *eng.Ctx, ms eng.MState, ev *eng.Event) eng.MState {
 		s.obs, s.fresh, s.cut, s.waited, s.waitDur = nil, false, false, false, nil
 		s.timers, s.done = nil, nil
 	case "task-exit":
-		chk("C20.R3", !s.waited, "a wait follows the last exec attempt of an item (before the task ends)")
+		chk("C20.R3", !s.waited || s.cut, "a wait follows the last exec attempt of an item (before the task ends)")
 		s = m.endItem(s, "")
 	case "loophead":
 		r := s.rec(ev.Site)
@@ -210,7 +210,7 @@ func (m *LifeMon) OnEvent(c *eng.Ctx, ms eng.MState, ev *eng.Event) eng.MState {
 		} else {
 			if batch && !m.isExecLoop(c, ev) {
 				// end of one item's processing in a batch: nothing of it may influence the next item
-				m.Col.Check("C20.R3", m.variant(c)+"|"+funcLabel(ev.Fn)+":item-loop-iteration", !s.waited, ev.Pos, "a wait follows the last exec attempt of an item", pathIf(s.waited, c))
+				m.Col.Check("C20.R3", m.variant(c)+"|"+funcLabel(ev.Fn)+":item-loop-iteration", !s.waited || s.cut, ev.Pos, "a wait follows the last exec attempt of an item", pathIf(s.waited && !s.cut, c))
 				s = m.endItem(s, ev.Site)
 				r = s.rec(ev.Site)
 			}
@@ -600,7 +600,7 @@ func (m *LifeMon) onPost(c *eng.Ctx, s lifeState, ev *eng.Event, batch bool, chk
 		}
 	}
 	chk("C01.R3", ev.Recv != nil && s.nodeTerm != nil && sameNode(ev.Recv, s.nodeTerm), "post is invoked on "+ev.Recv.Pretty()+", not on the node being run")
-	chk("C20.R3", !s.waited, "a wait follows the last exec attempt (before post)")
+	chk("C20.R3", !s.waited || s.cut, "a wait follows the last exec attempt (before post)")
 	s.nPost++
 	s.last, s.lastVal, s.lastErr = "Post", ev.Results[0], ev.Results[1]
 	s.lastPos = posStr(ev.Pos)
@@ -622,7 +622,7 @@ func (m *LifeMon) onReturn(c *eng.Ctx, s lifeState, ev *eng.Event, batch bool) {
 	ck := func(rule string, ok bool, msg string) {
 		m.Col.Check(rule, con, ok, ev.Pos, msg, pathIf(!ok, c))
 	}
-	ck("C20.R3", !s.waited, "a wait follows the last exec attempt (before returning)")
+	ck("C20.R3", !s.waited || s.cut, "a wait follows the last exec attempt (before returning) and the run was not cut short by a cancellation observed after it")
 	if !batch && (s.last == "Exec" || s.last == "Fb") {
 		// the run ends right after the exec phase without post: only legal when that phase is known to have failed
 		ck("C01.R4", knownNonNil(c, s.lastErr), "the run returns after an exec attempt/fallback that may have succeeded, without invoking post (post must run whenever the exec phase produced a result without error)")
